@@ -26,7 +26,7 @@ THEOREMS = [f'Gnpy.Edfa.{t}' for t in (
     'nf_fixed_gain', 'nf_advanced_at_gmax', 'dual_stage_friis', 'flat_profile_exact', 'single_channel_profile',
     'gain_profile_flat', 'nf_no_pad', 'call_spec',
     'out_of_band_dropped', 'in_band_kept', 'demux_sublist', 'call_none_iff_no_channel_in_band',
-    'gain_profile_normalised_partial', 'callSeq_unsaturated', 'callSeq_persists', 'nf_stage_at_gmax_gmin',
+    'gain_profile_normalised_partial', 'callSeq_unsaturated', 'callSeq_persists', 'callGains_history_free', 'callSeq_leaks_example', 'nf_stage_at_gmax_gmin',
     'nf_openroadm', 'nf_openroadm_preamp', 'multiCall_none_iff', 'multiCall_per_band', 'coil_pos_of_spread',
     'nf_stage_antitone', 'interp_const', 'dual_stage_limits', 'dual_stage_total_out_le_booster_pmax',
     'dual_stage_rejected_iff', 'flat_branch_total_gain', 'gain_profile_normalised_uniform_flat', 'secantStep_affine',
@@ -60,9 +60,10 @@ MODEL_SCOPE = ('modelled: Edfa.__call__/propagate/interpol_params (band filter, 
 TRUSTED = ['numpy.polyfit (SVD least squares) is compared against the closed-form least-squares slope within class F']
 
 H = 6.62607015e-34
-# Edfa.interpol_params clamps the `effective_gain` ATTRIBUTE: the reduction of a hot spectrum stays in force for later
-# calls of the same object (open finding saturation-persists-across-calls). The model follows the code.
-GAIN_REDUCTION_PERSISTS = True
+# Before repair 37e30883 Edfa.interpol_params clamped the `effective_gain` ATTRIBUTE with itself: the reduction of a hot
+# spectrum stayed in force for later calls of the same object (fixed finding saturation-persists-across-calls; the class
+# is kept so that a return of the defect is named). The model follows the code: every call clamps from the set gain.
+GAIN_REDUCTION_PERSISTS = False
 TILT_RESIDUAL_DB = 0.02
 
 
